@@ -497,3 +497,14 @@ def d8_unique_fields(ctx):
 
 
 RULES.append(('D8', d8_unique_fields))
+
+
+def d9_lexical(ctx):
+    """D9 every month name is a month token (E7b lexical competition model: month stage, regex families in TOKEN_REGEX_PARSER order with first-claim-wins,
+    alias stage; samples generated from the configuration)"""
+    from ..lexrules import run_samples, number_samples, based_samples, money_samples, unit_samples, month_samples, zone_samples, duration_samples, percent_samples, keyword_samples
+    ctx.rule('D9', 'every month name is a month token', floor=80)
+    run_samples(ctx, 'D9', month_samples(ctx))
+
+
+RULES.append(('D9', d9_lexical))
